@@ -32,17 +32,19 @@ Theorem C27_selector_memo : forall lookback delta s offset interval n start,
   map (fun k => select_spec lookback s (start + Z.of_nat k * interval - offset)) (seq 0 n).
 Proof. exact selector_memo. Qed.
 
-(* Full statement: for every expression e of the modelled fragment (selectors and range
-   functions with offset and @, range functions over subqueries, pointwise functions),
-     nth k (eval_range d (preprocess e) start interval n) [] = eval_instant d e (start + k*interval).
-   Proved here for the subquery-free fragment (okexpr: no ESub, positive ranges, an @-modified
-   range selector only under an at-modifier-safe function).  Missing: the ESub case, i.e. that
-   the child grid of subqueryTimeRange restricted to a step's window is the grid an instant
-   query at that step builds (the model's ESub is executable and is compared with the engine
-   by the harness).  Window functions and pointwise functions are arbitrary; the only
-   assumptions are the ones PreprocessExpr itself relies on: functions outside
-   AtModifierUnsafeFunctions do not look at the evaluation time. *)
-Theorem C27_range_eq_instant_partial :
+(* For every expression e of the modelled fragment (selectors and range functions over matrix
+   selectors with offset and @, range functions over subqueries e1[range:step] offset o with an
+   arbitrary inner expression, pointwise functions of 0/1/2 arguments — aggregations with and
+   without parameter, binary operators, instant functions, literals, time()), the range
+   evaluation of the preprocessed expression (step-invariant parts wrapped and evaluated once,
+   memoized / buffered iterators carried through the steps, the subquery evaluated once on its
+   own aligned grid) equals, at every step, the direct instant evaluation at that step's time.
+   Window functions and pointwise functions are arbitrary; the only assumptions are the ones
+   PreprocessExpr itself relies on: functions outside AtModifierUnsafeFunctions do not look at
+   the evaluation time.  okexpr: positive ranges and subquery steps, an @-modified range
+   selector only under an at-modifier-safe function (i.e. not predict_linear), source
+   expressions contain no StepInvariantExpr.  Not in the fragment: @ on a subquery itself. *)
+Theorem C27_range_eq_instant :
   forall (Sel F G L : Type) (matches : Sel -> L -> bool) (l_eqb : L -> L -> bool) (universe : list L)
          (wf : F -> Z -> Z -> Z -> list sample -> option Z)
          (pf : G -> Z -> list (list (L * Z)) -> list (L * Z))
@@ -55,7 +57,7 @@ Theorem C27_range_eq_instant_partial :
   nth k (eval_range Sel F G L matches l_eqb universe wf pf lookback d
            (preprocess Sel F G safe safeF e) start interval n) [] =
   eval_instant Sel F G L matches l_eqb universe wf pf lookback d e (start + Z.of_nat k * interval).
-Proof. exact range_eq_instant_nosub. Qed.
+Proof. exact range_eq_instant. Qed.
 
 (* An instant query with `offset dl` on every outermost selector / subquery at time t equals
    the query without it at t - dl, when there is no @ modifier at that level and no function
@@ -91,6 +93,17 @@ Example C27_nonvacuous_select :
   sel_steps 3000 3000 ex_series 0 1100 4 2600 =
   [Some (mkS 2500 2); None; Some (mkS 4700 4); Some (mkS 4700 4)].
 Proof. vm_compute. reflexivity. Qed.
+
+(* a subquery whose child grid is shared by the steps: sum of the selected values over
+   (p)[2000:700] at 3 steps, evaluated by the range algorithm *)
+Example C27_nonvacuous_subquery :
+  let wfs := fun (_ : unit) (_ _ _ : Z) (w : list sample) => Some (fold_left (fun a p => a + sV p) w 0) in
+  let e := ESub unit unit unit tt (EVec unit unit unit tt 0 None) 2000 700 0 in
+  okexpr unit unit unit (fun _ => true) e /\
+  eval_range unit unit unit Z (fun _ _ => true) Z.eqb [0] wfs (fun _ _ _ => []) 3000 [(0, ex_series)]
+    (preprocess unit unit unit (fun _ => true) (fun _ => true) e) 2600 800 3 =
+  [[(0, 2)]; [(0, 3)]; [(0, 2)]].
+Proof. split; [simpl; repeat split; lia|vm_compute; reflexivity]. Qed.
 
 (* an expression of the proved fragment with a wrapped step-invariant part:
    g2 (f(m[2000] offset 100)) (m @ 2600): the second argument is wrapped, the whole is not *)
